@@ -17,7 +17,8 @@ JoinSeconds(sec, fs, bits, num, den) ==
              ELSE WMul(sec, den) \oplus WFloorDiv(WMul(fs, den), Pow10(15))[1]
   IN  [ok |-> WLe(RepMin(bits), cnt) /\ WLe(cnt, RepMax(bits)), count |-> cnt]
 \* the first n of the 15 fractional digits (truncation, not rounding); n = 0: none
-FracDigits(fs, n) == SubSeq(WDecPad(fs, 15), 1, n)
+FracDigits(fs, n) == IF n <= 15 THEN SubSeq(WDecPad(fs, 15), 1, n)
+                     ELSE WDecPad(fs, 15) \o [i \in 1..(n - 15) |-> 48]      \* finer than femtoseconds: zeros on the right
 RECURSIVE DropTrailingZeros(_)
 DropTrailingZeros(d) == IF d # <<>> /\ d[Len(d)] = 48 THEN DropTrailingZeros(SubSeq(d, 1, Len(d) - 1)) ELSE d
 \* %E*f: all significant digits, at least one
